@@ -184,7 +184,7 @@ pub fn gen_scale(rng: &mut Rng, cfg: &ValueCfg, ndigits: usize, digit_class: usi
         // inside the integer
         4 => rng.range(0, nd.max(1)),
         5 => {
-            let mag = rng.log_range(1_000_000) as i64;
+            let mag = if rng.chance(1, 4) { rng.range(60_000, 100_000) } else { rng.log_range(1_000_000) as i64 };
             if rng.chance(1, 2) {
                 mag
             } else {
